@@ -161,6 +161,8 @@ fn mask_meadow(qr: &mut QRCode) {
 
 /// Applies the function at `mask_nb` on `mat`
 pub fn mask(qr: &mut QRCode, mask: Mask) {
+    #[cfg(fast_qr_verif)]
+    crate::verif::point("mask.entry");
     match mask {
         Mask::Checkerboard => mask_checkerboard(qr),
         Mask::HorizontalLines => mask_horizontal(qr),
